@@ -12,7 +12,8 @@ import (
 )
 
 // Seq / ToSeq (no concurrency): per input line of ints print
-//   <cap> <len before> | <ToSeq result> | <closed after drain>
+//
+//	<cap> <len before> | <ToSeq result> | <closed after drain>
 func TestSeqToSeq(t *testing.T) {
 	inp, outp := os.Getenv("SEQ_IN"), os.Getenv("SEQ_OUT")
 	if inp == "" || outp == "" {
